@@ -233,9 +233,9 @@ def rule_def(ctx, cr):
     ok = False
     for b, code, span in f.error_codes():
         for c in f.conds_at(b):
-            if c[0] == "eq" and re.search(r"\(arg:step Eq const:0\)", str(c[1])) and c[2] is True:
+            if c[0] == "eq" and re.search(r"\(arg:4 Eq const:0\)", str(c[1])) and c[2] is True:
                 ok = True
-            if c[0] == "eq" and re.search(r"\(arg:step (Ne|Gt) const:0\)", str(c[1])) \
+            if c[0] == "eq" and re.search(r"\(arg:4 (Ne|Gt) const:0\)", str(c[1])) \
                     and c[2] is False:
                 ok = True
     ctx.check(ok, "C14.d", "Listing::renum/step-zero", f.span,
@@ -275,7 +275,7 @@ def rule_def(ctx, cr):
     okf = False
     for b, code, span in f.error_codes():
         for c in f.conds_at(b):
-            if c[0] == "eq" and "var:old_end Ge arg:new_start" in str(c[1]) and c[2] is True:
+            if c[0] == "eq" and re.search(r"var:\w+ Ge arg:2", str(c[1])) and c[2] is True:
                 okf = True
     ctx.check(okf, "C14.f", "Listing::renum/order-guard", f.span,
               "`old_end >= new_start` leads to an error",
